@@ -49,7 +49,7 @@ def run(module, cfg_text, workdir, workers=1, simulate=None, timeout=3600, heap=
             cmd += ['-seed', str(simulate['seed'])]
     cmd += [module + '.tla']
     env = dict(os.environ)
-    opts = '-Xmx%s' % heap
+    opts = '-Xmx%s -Xss64m' % heap
     env['JAVA_TOOL_OPTIONS'] = (env.get('JAVA_TOOL_OPTIONS', '') + ' ' + opts).strip()
     t0 = time.time()
     proc = subprocess.Popen(cmd, cwd=workdir, stdout=subprocess.PIPE, stderr=subprocess.STDOUT, env=env,
